@@ -8,6 +8,8 @@ open Mpt Mpt.Nodes Mpt.Forest
 structure St where
   m : Store := {}
   sp : Forest.St := {}
+  /-- `n fail k`: the k-th malloc of the next clone op fails -/
+  failAt : Nat := 0
   deriving Inhabited
 
 /-! ### canonical text -/
@@ -67,7 +69,16 @@ def tok (s : St) (w : String) : Option Nat :=
     | none => none
   | none => none
 
-def okWord (w : String) : Bool := w.length ≤ 200
+/-- number of malloc calls `mpt_node_clone` makes for one node: the value's metatype (if any), the node, and the
+    name when it does not fit into the node (identifier length incl. terminator > 216) -/
+def mallocsNode (n : Name) (v : Val) : Nat :=
+  (if v.isSome then 1 else 0) + 1 + (match n with | some nm => if nm.utf8ByteSize + 1 > 216 then 1 else 0 | none => 0)
+
+def mallocsForest : Nat → Forest → Nat
+  | 0, _ => 0
+  | f + 1, l => l.foldl (fun acc t => acc + mallocsNode t.name t.value + mallocsForest f t.children) 0
+
+def okWord (w : String) : Bool := w.length ≤ 600
 
 /-- outcome of an op that changes the structure: model result `r`, spec result `sp'` (`none` = precondition
     of the call not met: both drivers skip the call) -/
@@ -170,19 +181,35 @@ def step (s : St) (w : List String) : St × String :=
           | x => (s, line (resName x) s.m "-" "ok" sp')
         | x => (s, line (resName x) s.m "-" "ok" sp')
     | _, _ => (s, "bad-op")
+  | ["n", "fail", k] =>
+    match k.toNat? with
+    | some k =>
+      if k = 0 ∨ k > 100000 then (s, "bad-op") else
+      let s' := { s with failAt := k }
+      (s', line "ok" s.m "-" "ok" s.sp)
+    | none => (s, "bad-op")
   | "n" :: "clone" :: x :: rest =>
     if rest ≠ [] ∧ rest ≠ ["tree"] ∧ rest ≠ ["list"] then (s, "bad-op") else
     match tok s x with
     | some x =>
       let mode := if rest = [] then 0 else if rest = ["tree"] then 1 else 2
-      match s.sp.clone x mode with
-      | none => precond s
-      | some sp' =>
-        let r : Res Store :=
-          if mode = 0 then (s.m.nodeClone x).bind fun r => .ok r.1
-          else if mode = 1 then (s.m.treeClone x).bind fun r => .ok r.1
-          else (s.m.listClone s.m.fuel (some x)).bind fun r => .ok r.1
-        finish s r sp' (toString s.m.nodes.length)
+      let s0 := { s with failAt := 0 }
+      match s.sp.clone x mode, s.sp.sibsOf? x with
+      | some sp', some (l, i) =>
+        let src : Forest := match l[i]? with
+          | some t => if mode = 0 then [.node t.id t.name t.value []] else if mode = 1 then [t] else l.drop i
+          | none => []
+        let total := mallocsForest depthFuel src
+        if s.failAt ≠ 0 ∧ s.failAt ≤ total then
+          -- an allocation fails: the call is refused, everything it had built is released again
+          (s0, line "refused" s.m s!"null mallocs={s.failAt}" "refused" s.sp)
+        else
+          let r : Res Store :=
+            if mode = 0 then (s.m.nodeClone x).bind fun r => .ok r.1
+            else if mode = 1 then (s.m.treeClone x).bind fun r => .ok r.1
+            else (s.m.listClone s.m.fuel (some x)).bind fun r => .ok r.1
+          finish s0 r sp' s!"{s.m.nodes.length} mallocs={total}"
+      | _, _ => precond s0
     | none => (s, "bad-op")
   | ["n", "clear", x] =>
     match tok s x with
@@ -236,7 +263,14 @@ def step (s : St) (w : List String) : St × String :=
     | x => ({}, line (resName x) s.m "-" "ok" empty)
   | _ => (s, "bad-op")
 
+/-- a pending `n fail k` only concerns the op that follows it -/
+def stepTop (s : St) (w : List String) : St × String :=
+  let r := step s w
+  match w with
+  | ["n", "fail", _] => r
+  | _ => ({ r.1 with failAt := 0 }, r.2)
+
 def main (_args : List String) : IO Unit := do
-  Driver.loop (← IO.getStdin) (← IO.getStdout) step ({} : St)
+  Driver.loop (← IO.getStdin) (← IO.getStdout) stepTop ({} : St)
 
 end Driver.Node
